@@ -6,6 +6,7 @@ import (
 	"fmt"
 	"os"
 	"path/filepath"
+	"sort"
 	"strconv"
 	"strings"
 	"sync"
@@ -39,6 +40,10 @@ import (
 // of its own (all the serial runs return at once).
 //
 // Keys: engine-stuck-after-overlap, overlap-not-serializable.
+//
+// The sweep runs over families of templates (c02OvFamily): the one described above (absolute names; the held name is
+// in the loader's store), and one per tag for names written relative to the rendering template, where the held call
+// is the look-up of the RESOLVED name, which the store does not have (c02_relnames.go).
 
 const (
 	c02BlockedAfter = 300 * time.Millisecond // a call made while another is held may wait for it (it then shows only after the release)
@@ -49,9 +54,9 @@ const (
 
 type c02Gate struct {
 	mu      sync.Mutex
-	name    string // the template whose loader calls are held
-	where   string // "load-before" | "load-after" | "mtime"
-	hold    int    // how many more calls to hold
+	names   map[string]bool // the templates whose loader calls are held
+	where   string          // "load-before" | "load-after" | "mtime"
+	hold    int             // how many more calls to hold
 	taken   int
 	slots   []chan struct{}
 	arrived chan int // slot numbers of held calls
@@ -62,7 +67,7 @@ func (g *c02Gate) pass(where, name string) {
 		return
 	}
 	g.mu.Lock()
-	if g.hold == 0 || where != g.where || name != g.name {
+	if g.hold == 0 || where != g.where || !g.names[name] {
 		g.mu.Unlock()
 		return
 	}
@@ -190,7 +195,16 @@ func (s *c02Store) set(name, src string, version int) {
 		s.mem.mtime[name] = int64(1000 + 60*version)
 		s.mem.mu.Unlock()
 	case "fs":
+		if strings.HasPrefix(name, "../") {
+			return // a name that leaves the directory is not a file of this store
+		}
 		p := filepath.Join(s.dir, name)
+		if d := filepath.Dir(p); d != filepath.Clean(s.dir) {
+			if err := os.MkdirAll(d, 0o755); err != nil {
+				s.failed = err
+				return
+			}
+		}
 		c02FsMu.Lock()
 		same := c02FsOnDisk[p] == fmt.Sprint(version, "\x00", src)
 		delete(c02FsOnDisk, p)
@@ -330,6 +344,7 @@ func c02OvSources() map[string]string {
 }
 
 type c02OvScenario struct {
+	fam    *c02OvFamily
 	config string // cache-on | cache-off | auto-reload
 	store  string
 	prefix string // cold | warm | warm-changed
@@ -376,6 +391,28 @@ var (
 	}
 )
 
+// c02OvFamily is one set of templates with the calls that are held, made meanwhile and made afterwards on it. The
+// first family is the one the sweep started with (absolute names, the held name is in the loader's store); the others
+// (c02_relnames.go) hold the look-up of a name written relative to the rendering template.
+type c02OvFamily struct {
+	name              string // "" for the first family (keeps its scenario numbers and distinct-keys)
+	sources           func() map[string]string
+	warm              []string        // rendered once, in this order, by the prefixes "warm" and "warm-changed"
+	warmReachesLoader bool            // with the cache on, a render of a warm template still asks the loader for a gated name
+	gatedMissing      bool            // the store has the gated names only after "warm-changed"
+	changedName       string          // "warm-changed": this name gets version 2 in the loader's store …
+	changedSrc        string          // … with this text
+	gated             map[string]bool // loader calls for these names are held
+	held, during      [][]c02OvCall
+	after             []c02OvCall
+}
+
+func c02OvFamilies() []*c02OvFamily {
+	fams := []*c02OvFamily{{sources: c02OvSources, warm: []string{"page", "other", "wrap", "child", "imp"}, changedName: "page", changedSrc: c02PageSrc(2),
+		gated: map[string]bool{"page": true}, held: c02OvHeld, during: c02OvDuring, after: c02OvAfter}}
+	return append(fams, c02RelFamilies()...)
+}
+
 func c02OvEngine(sc c02OvScenario, store *c02Store, g *c02Gate) *twig.Engine {
 	eng := twig.New()
 	eng.RegisterLoader(store.loader(g))
@@ -390,19 +427,19 @@ func c02OvEngine(sc c02OvScenario, store *c02Store, g *c02Gate) *twig.Engine {
 
 // c02OvPrefix brings store and engine to the state in which the overlap starts (all of it serial).
 func c02OvPrefix(sc c02OvScenario, store *c02Store, eng *twig.Engine) bool {
-	for n, s := range c02OvSources() {
+	for n, s := range sc.fam.sources() {
 		store.set(n, s, 1)
 	}
 	if sc.prefix == "cold" {
 		return store.failed == nil
 	}
-	for _, n := range []string{"page", "other", "wrap", "child", "imp"} {
+	for _, n := range sc.fam.warm {
 		if _, ok := c02Timed(c02StuckAfter, func() string { return c02OvCall{kind: "Render", name: n}.run(eng, "warm-up") }); !ok {
 			return false
 		}
 	}
 	if sc.prefix == "warm-changed" {
-		store.set("page", c02PageSrc(2), 2)
+		store.set(sc.fam.changedName, sc.fam.changedSrc, 2)
 	}
 	return store.failed == nil
 }
@@ -452,7 +489,8 @@ func c02OvSerial(sc c02OvScenario, dir string, order []c02OvRef) ([]string, bool
 	if !c02OvPrefix(sc, store, eng) {
 		return nil, false
 	}
-	res := make([]string, len(sc.held)+len(sc.during)+len(c02OvAfter))
+	after := sc.fam.after
+	res := make([]string, len(sc.held)+len(sc.during)+len(after))
 	for _, ref := range order {
 		call, slot := sc.during, len(sc.held)
 		if ref.held {
@@ -464,7 +502,7 @@ func c02OvSerial(sc c02OvScenario, dir string, order []c02OvRef) ([]string, bool
 		}
 		res[slot+ref.i] = r
 	}
-	for i, c := range c02OvAfter {
+	for i, c := range after {
 		r, ok := c02Timed(c02StuckAfter, func() string { return c.run(eng, fmt.Sprintf("«A%d»", i)) })
 		if !ok {
 			return nil, false
@@ -485,7 +523,7 @@ type c02OvOutcome struct {
 // c02OvOverlapped runs the scenario with the held calls stopped inside the loader.
 func c02OvOverlapped(sc c02OvScenario, dir, gateAt string, lifo bool) (o c02OvOutcome, ok bool) {
 	store := c02NewStore(sc.store, dir)
-	g := &c02Gate{name: "page", where: gateAt, arrived: make(chan int, 8)}
+	g := &c02Gate{names: sc.fam.gated, where: gateAt, arrived: make(chan int, 8)}
 	for range sc.held {
 		g.slots = append(g.slots, make(chan struct{}))
 	}
@@ -494,7 +532,7 @@ func c02OvOverlapped(sc c02OvScenario, dir, gateAt string, lifo bool) (o c02OvOu
 		return o, false
 	}
 	nH, nD := len(sc.held), len(sc.during)
-	o.results = make([]string, nH+nD+len(c02OvAfter))
+	o.results = make([]string, nH+nD+len(sc.fam.after))
 	released := make([]bool, nH)
 	release := func(slot int) {
 		if slot < len(released) && !released[slot] {
@@ -624,7 +662,7 @@ func c02OvOverlapped(sc c02OvScenario, dir, gateAt string, lifo bool) (o c02OvOu
 	}
 
 	// afterwards: every route once more, each with a time limit
-	for i, c := range c02OvAfter {
+	for i, c := range sc.fam.after {
 		r, ok := c02Timed(c02StuckAfter, func() string { return c.run(eng, fmt.Sprintf("«A%d»", i)) })
 		if !ok {
 			o.stuck, o.stuckPhase = c.String(), "after all overlapping calls had returned"
@@ -648,14 +686,23 @@ func c02OvDescribe(sc c02OvScenario, gateAt string, lifo bool) string {
 		rel = "last one first"
 	}
 	pre := map[string]string{"cold": "nothing loaded yet", "warm": "every template rendered once before",
-		"warm-changed": "every template rendered once before, then 'page' replaced by a newer version in the loader's store"}[sc.prefix]
-	return fmt.Sprintf("config %s, loader %s, %s; held inside the loader (%s of 'page'): %s; made meanwhile: %s; held calls let go %s",
-		sc.config, sc.store, pre, gateAt, strings.Join(h, " and "), strings.Join(d, " then "), rel)
+		"warm-changed": fmt.Sprintf("every template rendered once before, then a newer version of %q put into the loader's store", sc.fam.changedName)}[sc.prefix]
+	var gated []string
+	for n := range sc.fam.gated {
+		gated = append(gated, fmt.Sprintf("%q", n))
+	}
+	sort.Strings(gated)
+	fam := strings.TrimPrefix(sc.fam.name, "-")
+	if fam == "" {
+		fam = "absolute names"
+	}
+	return fmt.Sprintf("templates: %s, config %s, loader %s, %s; held inside the loader (%s of %s): %s; made meanwhile: %s; held calls let go %s",
+		fam, sc.config, sc.store, pre, gateAt, strings.Join(gated, "/"), strings.Join(h, " and "), strings.Join(d, " then "), rel)
 }
 
 // c02OverlapSweep: the corpus core (the in-memory loader with modification times, one held call, every route, every
-// call made meanwhile, every configuration and gate position) runs on every seed; of the rest (two held calls, the
-// other loaders) the scenarios whose number is ≡ -seed (mod stride). Scenarios are independent (an engine, a store
+// call made meanwhile, every configuration and gate position, every family) runs on every seed; of the rest (two held
+// calls, the other loaders) the scenarios whose number is ≡ -seed (mod stride; twice the stride for the later families). Scenarios are independent (an engine, a store
 // and a directory each), so a few of them run side by side.
 func c02OverlapSweep(col *c02Collector, seed int64, tier string) {
 	stride := 4
@@ -678,21 +725,27 @@ func c02OverlapSweep(col *c02Collector, seed int64, tier string) {
 	}
 	var jobs []job
 	n := 0
-	for _, store := range c02StoreKinds {
-		for _, config := range c02Configs {
-			for _, prefix := range c02OvPrefixes {
-				if prefix == "warm" && config == "cache-on" {
-					continue // nothing reaches the loader: the held calls are not held
-				}
-				for hi, held := range c02OvHeld {
-					for _, during := range c02OvDuring {
-						n++
-						core := store == "mem-ts" && len(held) == 1 && !c02RaceBuild
-						if !core && (int64(n)+seed)%int64(stride) != 0 {
-							continue
+	for _, fam := range c02OvFamilies() {
+		for _, store := range c02StoreKinds {
+			for _, config := range c02Configs {
+				for _, prefix := range c02OvPrefixes {
+					if prefix == "warm" && config == "cache-on" && !fam.warmReachesLoader {
+						continue // nothing reaches the loader: the held calls are not held
+					}
+					for hi, held := range fam.held {
+						for _, during := range fam.during {
+							n++
+							core := store == "mem-ts" && len(held) == 1 && !c02RaceBuild
+							st := stride
+							if fam.name != "" {
+								st *= 2 // the later families: half as many of the sampled scenarios
+							}
+							if !core && (int64(n)+seed)%int64(st) != 0 {
+								continue
+							}
+							jobs = append(jobs, job{c02OvScenario{fam: fam, config: config, store: store, prefix: prefix, held: held, during: during}, n, hi,
+								filepath.Join(root, fmt.Sprintf("s%d", n))})
 						}
-						jobs = append(jobs, job{c02OvScenario{config: config, store: store, prefix: prefix, held: held, during: during}, n, hi,
-							filepath.Join(root, fmt.Sprintf("s%d", n))})
 					}
 				}
 			}
@@ -751,8 +804,8 @@ func c02OvRunScenario(col *c02Collector, sc c02OvScenario, n, hi int, dir string
 		serial = append(serial, res)
 	}
 	for gi, gateAt := range c02OvGates {
-		if gateAt == "mtime" && sc.store == "array" {
-			continue
+		if gateAt == "mtime" && (sc.store == "array" || (sc.fam.gatedMissing && sc.prefix != "warm-changed")) {
+			continue // nobody asks for the modification time (of a name the store does not have)
 		}
 		lifo := len(held) > 1 && (n+gi)%2 == 1
 		o, ok := c02OvOverlapped(sc, dir, gateAt, lifo)
@@ -761,14 +814,14 @@ func c02OvRunScenario(col *c02Collector, sc c02OvScenario, n, hi int, dir string
 		}
 		ran++
 		heldInside += o.reached
-		col.seen(fmt.Sprintf("overlap|%s|%s|%s|%d|%d|%s|%d", sc.store, sc.config, sc.prefix, hi, n, gateAt, o.reached))
+		col.seen(fmt.Sprintf("overlap%s|%s|%s|%s|%d|%d|%s|%d", sc.fam.name, sc.store, sc.config, sc.prefix, hi, n, gateAt, o.reached))
 		if o.blocked {
 			col.hit("overlap-call-waited-for-held-call")
 		}
 		replay := map[string]any{"kind": "forced-overlap", "config": sc.config, "loader": sc.store, "before": sc.prefix, "held_at": gateAt,
-			"held_calls": fmt.Sprint(held), "calls_meanwhile": fmt.Sprint(during), "calls_afterwards": fmt.Sprint(c02OvAfter),
+			"held_calls": fmt.Sprint(held), "calls_meanwhile": fmt.Sprint(during), "calls_afterwards": fmt.Sprint(sc.fam.after), "family": sc.fam.name,
 			"held_calls_released_last_first": lifo, "held_calls_that_reached_the_loader": o.reached,
-			"templates": c02OvSources(), "page_version_2": c02PageSrc(2), "results_overlapped": o.results, "results_of_every_serial_order": serial,
+			"templates": sc.fam.sources(), "changed_template": sc.fam.changedName, "changed_template_version_2": sc.fam.changedSrc, "results_overlapped": o.results, "results_of_every_serial_order": serial,
 			"result_layout": "held calls, calls made meanwhile, calls made afterwards (context {'who': «H|D|A n»})",
 			"rerun":         "harness -child c02overlap <seed> <tier>"}
 		if o.stuck != "" {
